@@ -36,7 +36,7 @@ EXHAUSTIVE = {'quick': False, 'thorough': False}
 UTC = datetime.timezone.utc
 ROLES = ['anon', 'guest', 'user', 'media', 'admin']
 RANK = {'anon': 0, 'guest': 0, 'user': 1, 'media': 2, 'admin': 3}
-MEDIA_TABLES = {'Stream', 'media_file', 'Blob', 'Key', 'mediafile_keys', 'media_file_error', 'mediafile_error',
+MEDIA_TABLES = {'Stream', 'media_file', 'Blob', 'key', 'mediafile_keys', 'media_file_error', 'mediafile_error',
                 'mp_stream', 'period', 'adaptation_set', 'content_type'}
 
 
